@@ -476,17 +476,19 @@ void body(ctx_t& c)
     {
         c.probe("fits_through_the_pool");
     }
-    // (a divergence of a fit on a learner object that was fitted before is attributed: the same pooled fit on a fresh object)
+    // (a divergence of a fit on a learner object that was fitted before is attributed on ONE core, where nothing depends on a
+    // schedule: if the used object diverges there too, its earlier fit leaks; otherwise it is the schedule)
     const auto differs = [&](const std::string& what)
     {
         if (used_before)
         {
-            const auto fresh = fit_once(p, id, criterion, c.cfg.cores, pool, depth, false);
+            const auto used1 = fit_once(p, id, criterion, 1, 1, depth, true);
             double     w     = 0.0;
-            if (fresh.threw == ref.threw && fresh.fitted == ref.fitted &&
-                (!ref.fitted || (vf::close(ref.score, fresh.score, 1e-12, 1e-300) && close_tensor(ref.predictions, fresh.predictions, 1e-12, w))))
+            const bool same  = used1.threw == ref.threw && used1.fitted == ref.fitted &&
+                              (!ref.fitted || (vf::close(ref.score, used1.score, 1e-12, 1e-300) && close_tensor(ref.predictions, used1.predictions, 1e-12, w)));
+            if (!same)
             {
-                c.fail("fit-depends-on-earlier-fit", what + " [the same fit on a fresh learner object agrees with the one-core fit: the earlier fit of the object leaks]");
+                c.fail("fit-depends-on-earlier-fit", what + " [on one core the fit on the used learner object differs from the fit on a fresh one as well: the earlier fit leaks]");
                 return;
             }
         }
